@@ -259,7 +259,8 @@ def main():
     builds = [{"name": "gcc-O1", "cc": "gcc", "cflags": ("-O1",)},
               {"name": "gcc-O1-gnu-ld", "cc": "gcc", "cflags": ("-O1",), "w2c2_opts": ("-m", "-d", "gnu-ld")},
               # trigraph replacement on (as with -std=c89/c99/c11 or -ansi)
-              {"name": "gcc-O1-trigraphs", "cc": "gcc", "cflags": ("-O1", "-trigraphs")}]
+              # ... and plain char unsigned, as in the ARM / PowerPC ABIs
+              {"name": "gcc-O1-trigraphs-uchar", "cc": "gcc", "cflags": ("-O1", "-trigraphs", "-funsigned-char")}]
     if tier != "quick":
         builds.append({"name": "clang-O2", "cc": "clang", "cflags": ("-O2",)})
     # per-instance segment state: one instance drops a segment, another instance of the same module still initialises from it
